@@ -2004,4 +2004,22 @@ theorem Message.serialize_oversize (m : Message) (buf : Bytes) (hbuf : 34 + m.bo
   rw [if_pos (by omega)]
 
 
+/-! ### constructor-validated header fields -/
+
+theorem Header.construct_wf (major minor sdo domain seq li : Nat) (h : Header)
+    (hc : Header.construct? major minor sdo domain seq li = some h)
+    (hd : domain < 256) (hs : seq < 2 ^ 16) (hl : li < 256) :
+    h.WF ∧ h.major = major ∧ h.minor = minor ∧ h.sdoId = sdo := by
+  unfold Header.construct? PtpVersion.new? SdoId.new? at hc
+  split at hc
+  · simp at hc
+  · split at hc
+    · simp only [bind, Option.bind, pure, Option.some.injEq] at hc
+      subst hc
+      refine ⟨?_, rfl, rfl, rfl⟩
+      unfold Header.WF Header.new PortIdentity.WF
+      simp only
+      omega
+    · simp [bind, Option.bind] at hc
+
 end NtpVerif.PtpWire
